@@ -269,7 +269,9 @@ def _nelder_mead_algorithm(fun, vertices, bounds=np.array([[], []]).T,
                     f_val[i] = _neg_bounded_fun(fun, bounds, vertices[i],
                                                 args=args)
 
-                sort_ind[1:] = f_val[sort_ind[1:]].argsort() + 1
+                # Re-sort the shrunk vertices (sort_ind holds vertex indices,
+                # not positions); the best vertex stays in front on ties
+                sort_ind[:] = sort_ind[f_val[sort_ind].argsort(kind='mergesort')]
 
                 x_bar = vertices[best_val_idx] + σ * \
                     (x_bar - vertices[best_val_idx]) + \
